@@ -46,8 +46,74 @@ def run_property(prop, tier):
         broken = "internal error: " + traceback.format_exc()[-1500:]
     if ctx is None:
         ctx = report.Ctx(prop, tier, prog or type("P", (), {"funcs": [], "n_units": 0})())
+    if tier == "thorough" and broken is None and not os.environ.get("H4_LIVENESS_CHILD"):
+        try:
+            liveness(prop, ctx)
+        except Exception:
+            broken = "liveness pass failed: " + traceback.format_exc()[-800:]
     return report.finish(ctx, t0, spec["level"], spec["explanation"], spec["rule_text"], spec["trusted"],
                          spec["assumptions"], broken)
+
+
+def liveness(prop, ctx):
+    """thorough tier: every defect recorded as `fixed:` for this property is re-introduced in a throw-away copy of /repo's
+    working tree (the fix commit's patch reverse-applied) and the quick analysis must report a violation there.  This shows
+    on every thorough run that the rules still bite; a recorded fix that no longer fires makes the analysis 'broken'
+    (exit 2).  Nothing is executed except the analysis itself; /repo is not touched."""
+    import shutil
+    import tempfile
+    entries = []
+    for ln in open(report.KNOWN_FILE):
+        if not ln.startswith("fixed:") or ("property=%s " % prop) not in ln:
+            continue
+        parts = ln.split()
+        commits = parts[2].split("+")
+        entries.append((parts[2], commits, "[no static rule" in ln))
+    if not entries:
+        return
+    cap = int(os.environ.get("H4_LIVENESS_MAX", "40"))
+    tmp = tempfile.mkdtemp(prefix="h4live.")
+    results = []
+    try:
+        src = os.path.join(tmp, "src")
+        subprocess.run(["rsync", "-a", "--exclude", "_build", "--exclude", ".git", facts.REPO + "/", src + "/"], check=True)
+        for label, commits, nostatic in entries[:cap]:
+            if nostatic:
+                results.append({"fix": label, "result": "no static rule (documented gap)"})
+                continue
+            patches = []
+            ok = True
+            for c in reversed(commits):
+                pt = subprocess.run(["git", "-C", facts.REPO, "show", c, "--format=", "--", "."], capture_output=True, text=True).stdout
+                r = subprocess.run(["patch", "-R", "-p1", "-s", "-f", "-d", src], input=pt, text=True, capture_output=True)
+                if r.returncode != 0:
+                    ok = False
+                    break
+                patches.append(pt)
+            if not ok:
+                for pt in reversed(patches):
+                    subprocess.run(["patch", "-p1", "-s", "-f", "-d", src], input=pt, text=True, capture_output=True)
+                subprocess.run(["rsync", "-a", "--exclude", "_build", "--exclude", ".git", facts.REPO + "/", src + "/"], check=True)
+                results.append({"fix": label, "result": "skipped: the fix can no longer be reverse-applied (superseded)"})
+                continue
+            env = dict(os.environ, H4_REPO=src, H4_EVID_DIR=os.path.join(tmp, "ev"), H4_LIVENESS_CHILD="1")
+            os.makedirs(env["H4_EVID_DIR"], exist_ok=True)
+            r = subprocess.run([sys.executable, os.path.join(VERIF, "check"), prop, "--tier", "quick"], env=env, capture_output=True, text=True)
+            first = ""
+            lines = r.stdout.splitlines()
+            for i, l in enumerate(lines):
+                if l.startswith("VIOLATION") and i + 1 < len(lines):
+                    first = " ".join(lines[i + 1].split()[:2])
+                    break
+            results.append({"fix": label, "result": "fires" if r.returncode == 1 else "MISSED (exit %d)" % r.returncode, "by": first})
+            for pt in patches:
+                subprocess.run(["patch", "-p1", "-s", "-f", "-d", src], input=pt, text=True, capture_output=True)
+    finally:
+        shutil.rmtree(tmp, ignore_errors=True)
+    ctx.stats["liveness"] = results
+    missed = [r for r in results if r["result"].startswith("MISSED")]
+    for r in missed:
+        ctx.unrecognised("LIVENESS", "LIVENESS:%s" % r["fix"], "-", "re-introducing the defect repaired by %s is no longer reported by this check" % r["fix"])
 
 
 def main(argv):
